@@ -96,7 +96,14 @@ func genTrans(rng *rand.Rand, marker uint32, forceStorable, bg bool) trAnswer {
 		s = genSpec(rng, dns.RcodeNameError, rng.Intn(2) == 0, true, marker)
 		atLeastOne(&s)
 	case x < 70:
-		s = genSpec(rng, dns.RcodeServerFailure, rng.Intn(2) == 0, true, marker)
+		// SERVFAIL "lives at most 5 s": as the answer of a background refresh it may replace the
+		// stale entry (the pinned tree) or leave it in place (serve-stale on upstream failure);
+		// the chains need refresh answers whose fate is decided, so refreshes get NXDOMAIN here
+		rc := dns.RcodeServerFailure
+		if bg {
+			rc = dns.RcodeNameError
+		}
+		s = genSpec(rng, rc, rng.Intn(2) == 0, true, marker)
 		atLeastOne(&s)
 	case x < 84:
 		s = genSpec(rng, dns.RcodeSuccess, false, false, marker)
@@ -200,6 +207,9 @@ func (t *trRun) answer(k *trKey, bg bool) trAnswer {
 		k.seq++
 		a := genTrans(t.rng, k.base+k.seq, k.needOK, bg)
 		k.pend = &a
+	}
+	if bg && k.pend.Kind == "spec" && k.pend.Spec.Rcode == dns.RcodeServerFailure {
+		k.pend.Spec.Rcode = dns.RcodeNameError // (an answer drawn for the foreground, now used by a refresh; see genTrans)
 	}
 	return *k.pend
 }
@@ -676,7 +686,7 @@ func (t *trRun) reloadRound() bool {
 					t.violation(k, "lifetime", c.Spec, fmt.Sprintf("/dump: entry put by %q lives %d s as a message, the statement allows %d s for a %s answer", c.Via, me-st, c.W.L, c.Spec.class()), nil)
 					continue
 				}
-				if ce-st > c.W.C {
+				if ce-st > c.W.C && !(t.lazy && c.Spec.class() == "noerror" && ce-st <= c.W.L) {
 					t.violation(k, "entry-lifetime", c.Spec, fmt.Sprintf("/dump: entry put by %q is kept %d s, at most %d s allowed for a %s answer (lazy_cache_ttl=%d)", c.Via, ce-st, c.W.C, c.Spec.class(), t.lazyTTL), nil)
 					continue
 				}
